@@ -410,6 +410,24 @@ func (t *HtmlScanner) readTag() (tok *Token, err error) {
 					attrValueStart = t.pos
 					continue // 前导空白都忽略掉
 				}
+				if ch == '>' { // <p a=> 空属性值: 保留属性 值为空串
+					value := ""
+					attr := &Attr{
+						Name:       strings.TrimSuffix(attrName.String(), " "),
+						NameStart:  attrNameStart,
+						NameEnd:    attrNameEnd,
+						Value:      &value,
+						ValueStart: attrValueStart,
+						ValueEnd:   attrValueStart,
+					}
+					if err := t.compileAttr(attr); err != nil {
+						return nil, t.Err("compile attr failed `%v`: %w", attr, err)
+					}
+					if err := tag.AddAttr(attr); err != nil {
+						return nil, t.Err("scan attr failed `%v`: %w", attr, err)
+					}
+					break // 执行到下方 '>' 判断结束 tag
+				}
 				attrValue.WriteRune(ch)
 				attrValueEnd = t.pos
 			} else { // 已经有 value 了
